@@ -92,7 +92,7 @@ PairScatterUpTo(d, p, k) ==
     IF k = 0 THEN MZero
     ELSE LET C == Members(p, k)
              M == [a \in Feat |-> [b \in Feat |->
-                     Div(SumOver([ab \in Idx \X Idx |-> R((d[ab[1]][a] - d[ab[2]][a]) * (d[ab[1]][b] - d[ab[2]][b]))], C \X C),
+                     Div(SumOver([i \in Idx |-> SumOver([j \in Idx |-> R((d[i][a] - d[j][a]) * (d[i][b] - d[j][b]))], C)], C),
                          R(2 * Cardinality(C)))]]
          IN MAdd(PairScatterUpTo(d, p, k - 1), M)
 PairScatter(d, p) == PairScatterUpTo(d, p, NClasses(p))
